@@ -152,6 +152,7 @@ func (s *KVTest) Update(entry sm.Entry) (sm.Result, error) {
 	}
 	generateRandomDelay()
 	dataKv := s.pbkvPool.Get().(*kv.KV)
+	dataKv.Key, dataKv.Val = "", ""
 	if err := dataKv.UnmarshalBinary(entry.Cmd); err != nil {
 		panic(err)
 	}
